@@ -213,7 +213,7 @@ func c04runMode(c *Ctx, fl *featLab, p *pool, tz string, crossOnly bool) {
 				got := dynamicpb.NewMessage(md)
 				if uerr := proto.Unmarshal(back, got); uerr != nil {
 					c.R.Harness("cannot re-read decoded wire: " + uerr.Error())
-				} else if !proto.Equal(got, norm) {
+				} else if !proto.Equal(jsonmap.Norm(got), norm) {
 					viol(caseID, "roundtrip-changed", diffFields(norm, got), rp(map[string]any{"json": string(jh), "decoded": fmt.Sprint(got), "expected": fmt.Sprint(norm)}))
 				}
 			}
@@ -286,7 +286,7 @@ func c04runMode(c *Ctx, fl *featLab, p *pool, tz string, crossOnly bool) {
 				default:
 					got := dynamicpb.NewMessage(md)
 					_ = proto.Unmarshal(backk, got)
-					if !proto.Equal(got, norm) {
+					if !proto.Equal(jsonmap.Norm(got), norm) {
 						viol(caseID, "canon-changed", sfx+diffFields(norm, got), rp(map[string]any{"canonical_json": string(canon), "decoded": fmt.Sprint(got), "expected": fmt.Sprint(norm)}))
 					}
 				}
